@@ -7,7 +7,9 @@ typedef struct { unsigned short fnum; unsigned ftype; unsigned short pos, comp, 
 #include "codec_tables.h"
 /* four translations of the same IR: NO_TOKCUT = real byte tokenizer, otherwise extract_element cut (codec_tok.h);
    NOGROUP = MessageBase::decode_group cut: reaching it is an assertion failure */
-#if defined(NOGROUP) && defined(NO_TOKCUT)
+#if defined(WORLD_FILE)
+#include WORLD_FILE
+#elif defined(NOGROUP) && defined(NO_TOKCUT)
 #include "world_ng.c"
 #elif defined(NOGROUP)
 #include "world_tkng.c"
@@ -46,7 +48,7 @@ struct W_rec_s { uint8_t comp; uint16_t tag; uint32_t pos; uint8_t vlen; uint8_t
 static struct W_rec_s W_rec[RMAX]; static int W_nrec, W_rec_overflow;
 static uint8_t W_last_val[VMAXB]; static uint8_t W_last_len; static int W_creates, W_adds;
 static int W_nel, W_el_closed, W_grp_open, W_msg_created, W_pool_exhausted;
-static int W_setup_done, W_mk_calls;
+static int W_setup_done, W_mk_calls; static uint32_t W_created_entry;
 static uint32_t W_sum, W_sum_calls, W_sum_len; static uint32_t W_exc_arg;
 static int W_comp_of(void *p)
 {
@@ -77,6 +79,7 @@ void *st_find_add_group(void *self, uint16_t fnum, void *parent) { W_grp_open++;
 /* GroupBase::create_group(false) of the shim group class := next element of a pool of NEL real MessageBase objects over the group's trait table */
 struct S_class_2eFIX8_3a_3aMessageBase *x_vf_next_element(void)
 {
+  __CPROVER_assert(W_nel < NEL, "C03: decode_group creates no more group elements than the input can hold (element pool exhausted: the element loop does not consume input)");
   if (W_nel >= NEL) { W_pool_exhausted = 1; __CPROVER_assume(0); }
   return &W_el[W_nel++];
 }
@@ -85,7 +88,8 @@ void *st_group_append(void *grp, void *el) { W_el_closed++; return grp; }
 /* cut point: unique_ptr<MessageBase>::~unique_ptr := nothing (element storage is the static pool) */
 void st_uptr_dtor(void *p) { }
 /* cut point: Message::calc_chksum(const char*, size, offset, len) := the byte sum W_sum chosen by the harness (C07 proves the kernel equals the byte sum) */
-uint32_t st_calc_chksum(void *from, uint64_t sz, uint32_t off, uint32_t len) { W_sum_calls++; W_sum_len = len; return W_sum; }
+static void *W_sum_from;
+uint32_t st_calc_chksum(void *from, uint64_t sz, uint32_t off, uint32_t len) { W_sum_calls++; W_sum_len = len == 0xffffffffu ? (uint32_t)sz - off : len; W_sum_from = (uint8_t*)from + off; return W_sum; }
 /* cut point: std::function<Message*(bool)>::operator() := header / trailer / body object of the world, by functor identity */
 void *st_msg_create(void *fn, uint8_t deep)
 {
@@ -97,6 +101,9 @@ void *st_msg_create(void *fn, uint8_t deep)
     __CPROVER_assert(W_mk_calls == 2 && fn == (void*)vf_ctx_mk_trl(&W_ctx), "second creator call of Message's constructor is _mk_trl"); return &W_trl;
   }
   __CPROVER_assert(fn != (void*)vf_ctx_mk_hdr(&W_ctx) && fn != (void*)vf_ctx_mk_trl(&W_ctx), "factory creates through the message table entry");
+  /* which message-table entry is being instantiated (0 = "A", 1 = "header", 2 = "trailer"): the real entries of header/trailer build a
+     header/trailer object and reinterpret_cast it to Message* - the harness reports that instead of executing it */
+  W_created_entry = fn == (void*)vf_msg_entry_fn(1) ? 1u : fn == (void*)vf_msg_entry_fn(2) ? 2u : 0u;
   W_msg_created++; return &W_msg;
 }
 #ifdef NOGROUP
